@@ -49,7 +49,13 @@ def tokenize(src):
 
 
 def fn_source(text, name):
-    m = re.search(r"\bfn " + re.escape(name) + r"\s*\(", text)
+    m = None
+    for m_ in re.finditer(r"\bfn " + re.escape(name) + r"\s*(?:<[^>]*>)?\s*\(", text):
+        # the definition, not a trait's declaration (`fn f(..) -> T;`)
+        a, b = text.find("{", m_.end()), text.find(";", m_.end())
+        if a != -1 and (b == -1 or a < b):
+            m = m_
+            break
     if not m:
         raise TranslateError(f"fn {name} not found")
     j = text.index("{", m.end())
@@ -125,10 +131,30 @@ class Fn:
         return a
 
     def add(self):
-        a = self.unary()
+        a = self.mul()
         while self.peek() in ("+", "-"):
             op = self.eat()
-            a = f"({a} {op} {self.unary()})"
+            a = f"({a} {op} {self.mul()})"
+        return a
+
+    def mul(self):
+        a = self.cast()
+        while self.peek() == "*":
+            self.eat()
+            a = f"({a} * {self.cast()})"
+        return a
+
+    def cast(self):
+        a = self.unary()
+        while self.peek() == "as":
+            self.eat()
+            ty = self.eat()
+            if ty in ("usize", "u64"):
+                pass                                  # sizes and offsets are unbounded naturals in the model
+            elif ty == "u32":
+                a = f"({a} % 4294967296)"
+            else:
+                raise TranslateError(f"cast to {ty}")
         return a
 
     def unary(self):
@@ -155,6 +181,8 @@ class Fn:
     def postfix(self):
         e = self.primary()
         while True:
+            if self.peek() == "." and self.peek(1) == ".":
+                return e                              # `a..b`: the caller (an index) handles the range
             if self.peek() == ".":
                 self.eat()
                 name = self.eat()
@@ -165,14 +193,23 @@ class Fn:
                     e = f"{e}.{self.fields.get(name, name)}"
             elif self.peek() == "[":
                 self.eat()
-                ix = self.expr()
-                self.eat("]")
-                e = f"{e}[{ix}]!"
+                lo = None if self.peek() == "." else self.expr()
+                if self.peek() == "." and self.peek(1) == ".":
+                    self.eat(); self.eat()
+                    hi = None if self.peek() == "]" else self.expr()
+                    self.eat("]")
+                    lo_ = lo or "(0 : Nat)"
+                    e = f"({e}.drop {lo_})" if hi is None else f"(({e}.drop {lo_}).take ({hi} - {lo_}))"
+                else:
+                    self.eat("]")
+                    e = f"{e}[{lo}]!"
             else:
                 return e
 
     def method(self, r, name, a):
         n = len(a)
+        if name in self.cfg.get("methods", {}):
+            return self.cfg["methods"][name](r, a)
         ident = {"iter", "copied", "clone", "collect", "chars", "to_string_lossy", "cloned", "into_iter", "to_path_buf", "to_owned", "as_os_str"}
         if name == "join" and n == 1:
             return f"({r}, {a[0]})"              # a location: (replica root, relative path)
@@ -368,6 +405,18 @@ class Fn:
                 if self.t[self.i:self.i + len(tk)] == tk:
                     hit = (len(tk), lean_line)
                     break
+            if tok == "#" and self.peek(1) == "[":
+                depth, k = 0, self.i + 1
+                while True:
+                    depth += {"[": 1, "]": -1}.get(self.t[k], 0)
+                    k += 1
+                    if depth == 0:
+                        break
+                self.i = k                            # an attribute: no run-time meaning
+                continue
+            if tok == "{":
+                out += self.block(ind)                # a bare block: its statements, in place
+                continue
             if hit:
                 self.i += hit[0]
                 if hit[1]:
@@ -547,6 +596,12 @@ class Fn:
         if len(toks) < 3 or toks[-2] != "." or k >= len(self.t) or self.t[k] != "(":
             return None
         name = toks[-1]
+        lv0 = "".join(toks[:-2])
+        if (lv0, name) in self.cfg.get("mutators", {}):
+            self.i = k
+            a = self.args()
+            self.eat(";")
+            return pad + self.cfg["mutators"][(lv0, name)](a)
         if name not in ("push", "sort", "sort_unstable", "dedup", "insert", "remove", "retain"):
             return None
         lv = "".join(toks[:-2])
@@ -597,7 +652,30 @@ def rp(args):
     return "(Copia.Gen.reconcilePath " + " ".join(args) + ")"
 
 
+
+def _scan_cfg(file, fn, lean_name):
+    return dict(group="delta", file=file, fn=fn, sig=None,
+        name=f"{fn} (the scan: from `let mut pos = 0usize;` to the tail literal)",
+        slice=("let mut pos = 0usize;", "delta.push_literal(&source_data[pos..]);"), slice_close=1, option=True,
+        lean=f"def {lean_name} {{D : Type}} [DecidableEq D] (fuel : Nat) (H : List Nat → D) (table : List (BlockSig D)) (block_size : Nat)\n"
+             "    (source_data : List Nat) (rops0 : List Op) : Option (List Op) := Id.run do\n"
+             "  -- world: the op list under construction (`delta.ops`, kept in the model's accumulator form)\n"
+             "  let mut rops := rops0",
+        epilogue=["return (some rops)"],
+        paths={"FastRollingChecksum::new": "Fast.new", "u64::from": "id"},
+        methods={"has_weak_match": lambda r, a: f"(hasWeak {r} {a[0]})",
+                 "find_match": lambda r, a: f"(findStrong H {r} {a[0]} {a[1]})",
+                 "digest": lambda r, a: f"{r}.digest",
+                 "min": lambda r, a: f"(min {r} {a[0]})"},
+        mutators={("rolling", "roll"): lambda a: f"rolling := rolling.roll {a[0]} {a[1]}",
+                  ("delta", "push_copy"): lambda a: f"rops := pushCopy rops {a[0]} {a[1]}",
+                  ("delta", "push_literal_byte"): lambda a: f"rops := pushLiteralByte rops {a[0]}",
+                  ("delta", "push_literal"): lambda a: f"rops := pushLiteral rops {a[0]}"},
+        calls={})
+
 FUNCS = [
+    _scan_cfg("src/sync.rs", "delta", "scanSync"),
+    _scan_cfg("src/async_sync.rs", "delta", "scanAsync"),
     dict(group="reconcile", file="src/bin/copia/reconcile.rs", name="reconcile",
          sig="fn reconcile(a: &FpMap, b: &FpMap, base: &FpMap, trust_base: bool) -> Vec<(PathBuf, Action)>",
          lean="def reconcile {K D : Type} [DecidableEq K] [DecidableEq D] (le : K → K → Bool)\n"
@@ -667,28 +745,33 @@ FUNCS = [
          calls={}, paths={}),
 ]
 
-PREAMBLE = '''import Copia.Gen.Decisions
-import Copia.Model.LoopSupport
-import Copia.Model.BidirSupport
+PREAMBLE = '''%s
 /-!
 GENERATED by tools/rs2lean_do.py from %s — do not edit.
 Each definition is the source function statement by statement (see the translator's header for what
 is interpreted). `Copia/Lemmas/GenEqLoops*.lean` proves them equal to the hand-written models.
 -/
 namespace Copia.Gen.Loops
-open Copia.Reconcile (lookup dedupAdj)
-open Copia.Plan (trimEndSlash splitSlash)
-open Copia.LoopSupport
-open Copia.Bisync (cIns cDel)
-open Copia.BidirSupport
+%s
 '''
 
-GROUPS = {"reconcile": "LoopsReconcile.lean", "plan": "LoopsPlan.lean", "bidir": "LoopsBidir.lean"}
+GROUP_HEAD = {
+    "reconcile": ("import Copia.Gen.Decisions\nimport Copia.Model.LoopSupport",
+                  "open Copia.Reconcile (lookup dedupAdj)\nopen Copia.LoopSupport"),
+    "plan": ("import Copia.Gen.Decisions\nimport Copia.Model.LoopSupport",
+             "open Copia.Reconcile (lookup dedupAdj)\nopen Copia.Plan (trimEndSlash splitSlash)\nopen Copia.LoopSupport"),
+    "bidir": ("import Copia.Gen.Decisions\nimport Copia.Model.LoopSupport\nimport Copia.Model.BidirSupport",
+              "open Copia.Reconcile (lookup dedupAdj)\nopen Copia.LoopSupport\nopen Copia.Bisync (cIns cDel)\nopen Copia.BidirSupport"),
+    "delta": ("import Copia.Model.DeltaSupport",
+              "open Copia.Delta Copia.DeltaSupport\nopen Copia.Checksum (Fast)"),
+}
+
+GROUPS = {"reconcile": "LoopsReconcile.lean", "plan": "LoopsPlan.lean", "bidir": "LoopsBidir.lean", "delta": "LoopsDelta.lean"}
 
 
 def translate(group):
     fs = [f for f in FUNCS if f["group"] == group]
-    L = [PREAMBLE % ", ".join(sorted({f["file"] for f in fs}))]
+    L = [PREAMBLE % (GROUP_HEAD[group][0], ", ".join(sorted({f["file"] for f in fs})), GROUP_HEAD[group][1])]
     for f in fs:
         text = open(os.path.join(REPO, f["file"])).read()
         text = text.split("#[cfg(kani)]")[0].split("#[cfg(test)]")[0]
@@ -701,7 +784,10 @@ def translate(group):
             a0, a1 = f["slice"]
             if body.count(a0) != 1 or body.count(a1) != 1 or body.index(a0) > body.index(a1):
                 raise TranslateError(f"{f['name']}: the section `{a0}` … `{a1}` is no longer there")
-            body = "{" + body[body.index(a0):body.index(a1) + len(a1)] + "}"
+            end_ = body.index(a1) + len(a1)
+            for _ in range(f.get("slice_close", 0)):
+                end_ = body.index("}", end_) + 1      # … and the closing brace(s) of the block the last statement sits in
+            body = "{" + body[body.index(a0):end_] + "}"
         t = Fn(tokenize(body), f)
         lines = t.block(2)
         if f.get("epilogue"):
